@@ -279,7 +279,12 @@ impl Property for C01 {
                 for w in &vals {
                     zoo.push((format!("wrong_type_combination(v{}, ..)", i), E::wrong_type_combination(evalexpr::Operator::Add, vec![ValueType::from(v), ValueType::from(w)])));
                 }
-                zoo.push((format!("value v{}", i), E::CustomMessage(format!("{} {:?}", v, v))));
+                // the value itself: formatted under catch_unwind like the errors
+                let shown = std::panic::catch_unwind(std::panic::AssertUnwindSafe(|| format!("{} {:?}", v, v)));
+                match shown {
+                    Ok(text) => zoo.push((format!("value v{}", i), E::CustomMessage(text))),
+                    Err(_) => viol.push((format!("Display / Debug of the value v{} = {}", i, enc_value(v)), "formatting panics".to_string())),
+                }
             }
             zoo.push(("wrong_type_combination(no types)".into(), E::wrong_type_combination(evalexpr::Operator::Neg, vec![])));
             for (a, b) in [(0usize, 0usize), (usize::MAX, 0), (0, usize::MAX), (3, 3)] {
